@@ -262,11 +262,14 @@ def replay_file(ctx, path, my_oracles, crash_is_mine):
         return 2
     tmp = os.path.join(C.BUILD, "tmp-storage")
     os.makedirs(tmp, exist_ok=True)
-    rc, out, err = C.run_lines(exe, "\n".join(script) + "\n", timeout=120, args=[tmp, "10000"])
+    large = bool(obj.get("replay", {}).get("large")) if isinstance(obj.get("replay"), dict) else False
+    rc, out, err = C.run_lines(exe, "\n".join(script) + "\n", timeout=300 if large else 120, args=[tmp, "60000" if large else "10000"])
     bad = 0
     for ln in out:
-        print(ln)
-        if ln.startswith("ORACLE ") and oracle_kind(ln) in my_oracles:
+        print(ln[:300])
+        if ln.startswith("ORACLE ") and (my_oracles is None or oracle_kind(ln) in my_oracles):
+            bad = 1
+        if large and ln.startswith("big err"):
             bad = 1
         if crash_is_mine and (ln.startswith("CRASH") or ln.startswith("TIMEOUT")):
             bad = 1
@@ -540,4 +543,5 @@ def large_file_runs(ctx, exe, scripts, what):
                 continue
             ctx.violation("oracle", "h_storage_io:" + (bad[0].split()[1] if bad and len(bad[0].split()) > 1 else "large-file-run-failed"),
                           ("%s beyond 4 GiB: %s" % (what, bad[0] if bad else " | ".join(out[-3:])))[:300],
-                          {"script": script.split("\n"), "how": "feed the script to .build/<tag>/h_storage_io*/h_storage_io* <tmpdir> 60000"})
+                          {"harness": "h_storage_io", "large": True, "script": [l for l in script.split("\n") if l],
+                           "how": "feed the script to .build/<tag>/h_storage_io*/h_storage_io* <tmpdir> 60000"})
